@@ -62,7 +62,10 @@ Assumptions (also listed in the generated header): symbolic sizes are positive a
 size-1 dimensions, not 1 (`x.squeeze()` on symbolic dims is the identity); opaque calls (`self.critic`,
 `preprocess_observation`, `self.to_device` = identity on its arguments, the recorder) do not re-lay-out or mutate the
 rollout tensors; the agents of one homogeneous group are met in the same order in all eight experience dictionaries
-(checked by the correspondence run: unsorted / interleaved agent ids); the advantage loop writes entry `[t, c]` from
+-- this FOLLOWS FROM THE CODE when `assemble_shared_inputs` loops over `self.agent_ids` with a membership guard and looks
+the entries up by key (the header then says so), and is an assumption only for a tree that iterates each input dictionary
+in its own key order (checked by the correspondence run: every one of the eight dictionaries in its own key order,
+unsorted / interleaved agent ids); the advantage loop writes entry `[t, c]` from
 entries `[t, c]` (`Proofs/GAEGenEq.lean`).
 """
 from __future__ import annotations
@@ -898,6 +901,10 @@ class Interp:
                 r = a is b
                 return r if isinstance(op, ast.Is) else not r
             fail(n, "`is` between values")
+        if isinstance(op, (ast.In, ast.NotIn)) and isinstance(a, AgentKey) and isinstance(b, SymList) and b.is_dict:
+            # membership guard `if agent_id not in input: continue`: the rollout dictionaries of the scenario hold
+            # every agent of the listing (an absent agent is skipped, it has no rows)
+            return isinstance(op, ast.In)
         if isinstance(a, int) and isinstance(b, int):
             return {ast.Eq: a == b, ast.NotEq: a != b, ast.Lt: a < b, ast.LtE: a <= b, ast.Gt: a > b, ast.GtE: a >= b}[type(op)]
         if isinstance(a, SymInt) and isinstance(b, int) and isinstance(op, (ast.Eq, ast.NotEq)):
@@ -930,6 +937,12 @@ class Interp:
             m = self.cur_cls_env.vars.get(n.attr) if self.cur_cls_env and n.attr in INTERP_METHODS else None
             if isinstance(m, FnVal) or n.attr in ID_SELF_METHODS:
                 return Bound(obj, n.attr)
+            if n.attr == "agent_ids" and getattr(self, "agents", None) is not None:
+                # the agent's own listing of the agent ids: a loop over it meets the agents in THAT order, whatever
+                # order a rollout dictionary lists them in (entries are then looked up by key)
+                self.canonical_order = True
+                nn, var = self.agents
+                return SymList(nn, var, AgentKey(var))
             return Opaque(f"self.{n.attr}")
         if isinstance(obj, Opaque):
             return Opaque(f"{obj.what}.{n.attr}")
@@ -1460,14 +1473,23 @@ def run_scenario(algo: str, name: str, okind: str, akind: str, vec: bool, utils:
             if m not in meths:
                 raise Unsupported(f"{mod.rel}: no method IPPO.{m}")
         shared = []
+        ip.agents, ip.canonical_order = (xs[0].n, xs[0].var), False
         for x in xs:
             r = ip.call_fn(meths["assemble_shared_inputs"], cls_env.vars["assemble_shared_inputs"], [x], {})
             if not isinstance(r, GroupTable) or r.entry is None:
                 raise Unsupported(f"{mod.rel}:{meths['assemble_shared_inputs'].lineno}: assemble_shared_inputs does not return the "
                                   "per-group dictionary it fills with `shared[group][agent_id] = …`")
             shared.append(SymList(r.entry[0], r.entry[1], r.entry[2], True))
-        ip.assume("`learn` hands `_learn_individual` the k-th group of each of the eight dictionaries `assemble_shared_inputs` "
-                  "returns; the agents of a group keep the order of the input dictionaries")
+        if ip.canonical_order:
+            ip.assume("`learn` hands `_learn_individual` the k-th group of each of the eight dictionaries `assemble_shared_inputs` "
+                      "returns.  NOT an assumption any more, it follows from the code: `assemble_shared_inputs` loops over "
+                      "`self.agent_ids` (membership guard, entries looked up by key), so the agent coordinate `a` is the position "
+                      "in the agent's own listing whatever key order each of the eight input dictionaries has")
+        else:
+            ip.assume("`learn` hands `_learn_individual` the k-th group of each of the eight dictionaries `assemble_shared_inputs` "
+                      "returns; the agents of a group keep the order of the input dictionaries (ASSUMED to be the same in all "
+                      "eight: the code iterates each input dictionary in its own key order)")
+        ip.agents = None
         fn = meths["_learn_individual"]
         call_args = [tuple(shared)]
         call_kw = {"actor": Opaque("actor"), "critic": Opaque("critic"), "actor_optimizer": Opaque("actor_optimizer"),
